@@ -57,15 +57,16 @@ type Held struct {
 }
 
 type Task struct {
-	W      *World
-	ID     string
-	Site   string
-	wake   chan struct{}
-	state  tstate
-	spawn  int
-	tspawn int
-	gid    uint64
-	held   []Held
+	W       *World
+	ID      string
+	Site    string
+	wake    chan struct{}
+	state   tstate
+	spawn   int
+	adopted int
+	tspawn  int
+	gid     uint64
+	held    []Held
 	// what the task is blocked on (diagnostics)
 	blockedOn  *MutexState
 	blockedAt  int64 // step
@@ -175,6 +176,37 @@ func Cur() *Task {
 		return v.(*Task)
 	}
 	return nil
+}
+
+// curOrAdopt returns the calling goroutine's task; a goroutine the
+// instrumenter did not see (started by net/http, gorilla, crypto/tls inside
+// the bubble) becomes a task at its first simulator operation. Its id derives
+// from the task that started it where that is known.
+func curOrAdopt() *Task {
+	if t := Cur(); t != nil {
+		return t
+	}
+	if !Baton() {
+		return nil
+	}
+	w := curWorld.Load()
+	if w == nil || w.dead.Load() {
+		return nil
+	}
+	var id string
+	w.mu.Lock()
+	if v, ok := gmap.Load(runtime.SimParentGoID()); ok {
+		p := v.(*Task)
+		id = fmt.Sprintf("%s/a%d", p.ID, p.adopted)
+		p.adopted++
+	} else {
+		id = fmt.Sprintf("anon-%d", w.anon)
+	}
+	w.anon++
+	w.mu.Unlock()
+	t := w.newTask(id, "?", false)
+	t.bind()
+	return t
 }
 
 func (w *World) newTask(id, site string, harness bool) *Task {
@@ -393,20 +425,9 @@ func Yield() {
 		perturbFree()
 		return
 	}
-	t := Cur()
+	t := curOrAdopt() // (an adopted goroutine is never unregistered; counted in evidence)
 	if t == nil {
-		w := curWorld.Load()
-		if w == nil || w.dead.Load() {
-			return
-		}
-		// A goroutine the instrumenter did not see: adopt it.
-		w.mu.Lock()
-		id := fmt.Sprintf("anon-%d", w.anon)
-		w.anon++
-		w.mu.Unlock()
-		t = w.newTask(id, "?", false)
-		t.bind()
-		// note: never unregistered; counted in evidence
+		return
 	}
 	t.park(sRunnable)
 }
@@ -856,9 +877,9 @@ func (w *World) HeldByCur() []string {
 // the embedded real mutex.
 func MutexLock(ms *MutexState, mu *sync.Mutex) {
 	try := mu.TryLock
-	t := Cur()
+	t := curOrAdopt()
 	if t == nil {
-		// not a task (should not happen in baton mode): spin politely
+		// no simulated world: spin politely
 		for !try() {
 			runtime.Gosched()
 		}
@@ -921,7 +942,16 @@ func MutexTryLocked(ms *MutexState) {
 
 // MutexUnlock implements ssync.Mutex.Unlock in baton mode. It returns false
 // if the mutex was not locked (the caller must then not unlock the real one).
-func MutexUnlock(ms *MutexState, mu *sync.Mutex) {
+func MutexUnlock(ms *MutexState, mu *sync.Mutex) { mutexUnlock(ms, mu, true) }
+
+// MutexUnlockQuiet is MutexUnlock without the yield after releasing: for
+// simulator-side objects (the simulated network's deadline setters) that code
+// outside the instrumented world calls with a lock of its own held (net/http
+// sets a read deadline under a sync.Mutex; parking there would leave that
+// mutex held with nobody able to see who waits for it).
+func MutexUnlockQuiet(ms *MutexState, mu *sync.Mutex) { mutexUnlock(ms, mu, false) }
+
+func mutexUnlock(ms *MutexState, mu *sync.Mutex, yield bool) {
 	unlock := mu.Unlock
 	t := Cur()
 	var w *World
@@ -968,7 +998,7 @@ func MutexUnlock(ms *MutexState, mu *sync.Mutex) {
 	}
 	ms.waiters = ms.waiters[:0]
 	w.mu.Unlock()
-	if t != nil {
+	if t != nil && yield {
 		t.park(sRunnable) // yield after releasing
 	}
 }
@@ -981,7 +1011,7 @@ type CondState struct {
 
 // CondWait: enqueue, unlock (via the caller-supplied functions), park, relock.
 func CondWait(cs *CondState, unlock func(), lock func()) {
-	t := Cur()
+	t := curOrAdopt()
 	if t == nil {
 		panic("simrt: Cond.Wait from non-task")
 	}
@@ -1062,7 +1092,7 @@ type OnceState struct {
 }
 
 func OnceDo(os *OnceState, f func()) {
-	t := Cur()
+	t := curOrAdopt()
 	if t == nil {
 		if !os.Done {
 			os.Done = true
